@@ -119,8 +119,11 @@ def lebrd : Handler :=
 
 def rdResHdr : Rd (Res ObuHeader) := Rd.resC rdHdr
 
+/-- `c13.obuhdr <bytes> <edits> => …` — `edits` (0 | 1, for the record; not an input of the model): the
+    same bytes were parsed before and the caller wrote through the header it got then (its fields and
+    the extension header behind the exported pointer) before the parse under test -/
 def obuhdr : Handler :=
-  mkHandler Rd.bytes
+  mkHandler (do let b ← Rd.bytes; let _edits ← Rd.nat; pure b)
     (do let p ← rdResHdr; let s ← Rd.nat; let b ← Rd.bytes; let r ← rdResHdr
         pure ({ parsed := p, size := s, bytes := b, reparsed := r } : Pred.C13.HdrObs))
     hdrObs (fun bs o => Pred.C13.hdr bs o)
